@@ -296,6 +296,20 @@ impl Vm {
     self.packages.insert(package.name(), package);
   }
 
+  /// Borrow the allocator on behalf of the simulation harness
+  #[cfg(feature = "verif")]
+  pub fn verif_allocator(&self) -> std::cell::Ref<'_, laythe_core::Allocator> {
+    self.gc.borrow()
+  }
+
+  /// Run a collection on behalf of the simulation harness
+  #[cfg(feature = "verif")]
+  pub fn verif_collect(&mut self, full: bool) {
+    let mut gc = self.gc.replace(laythe_core::Allocator::default());
+    gc.verif_collect(self, full);
+    self.gc.replace(gc);
+  }
+
   /// Interpret the provided laythe script returning the execution result
   fn interpret(
     &mut self,
@@ -337,6 +351,9 @@ impl Vm {
   fn execute(&mut self, mode: ExecutionMode) -> ExecutionResult {
     unsafe {
       loop {
+        #[cfg(feature = "verif")]
+        laythe_core::verif::tick();
+
         // get the current instruction
         let op_code: ByteCode = ByteCode::from_byte_unchecked(self.read_byte());
 
@@ -435,8 +452,14 @@ impl Vm {
             }
           },
           ExecutionSignal::ContextSwitch => match self.fiber_queue.pop_front() {
-            Some(fiber) => self.context_switch(fiber),
+            Some(fiber) => {
+              #[cfg(feature = "verif")]
+              laythe_core::verif::probe(laythe_core::verif::probes::CONTEXT_SWITCH);
+              self.context_switch(fiber)
+            },
             None => {
+              #[cfg(feature = "verif")]
+              laythe_core::verif::probe(laythe_core::verif::probes::DEADLOCK);
               let mut stdio = self.io().stdio();
               let stderr = stdio.stderr();
               writeln!(stderr, "Fatal error deadlock.").expect("Unable to write to stderr");
